@@ -484,6 +484,22 @@ def mode_update(P, R, rule='C05.MPT.2'):
     order = f.before(ornot[0], ors[0]) if hasattr(f, 'before') else False
     R.ob(rule, bool(sets_S) and bool(sets_C) and (full or (half and order)), ors[0],
          'the last mention of a mode in the PASS prefix wins: to-set and to-clear are kept disjoint (%s), or clears drop the mode from to-set (%s) and to-clear is applied first (%s)' % (full, half, order), key='mode-update')
+    # the modes asked for are the client's own: the scratch sets are only written while the PASS prefix is scanned, i.e.
+    # under a test of one of its characters (a later "correction" of the demand - dropping +! because it looks
+    # unsatisfiable, say - makes the daemon accept a client that demanded account-only visibility without an account)
+    for s in f.sites():
+        if s.ev['k'] not in ('bitset', 'bitclear') or root_var(s.ev.get('set')) is None or root_var(s.ev['set'])['name'] not in (S, C):
+            continue
+        by_char = False
+        for e in f.dominating_edges(s.bid):
+            if e.label == 'case' and any(v in (ord('x'), ord('!'), ord('+'), ord('-')) for v in (e.vs or [])):
+                by_char = True
+            r = rules.edge_rel(e)
+            if r and isinstance(r[0], dict) and (r[0].get('k') in ('idx',) or (r[0].get('k') == 'un' and r[0].get('op') == '*')) and isinstance(const_of(r[2]), int) and const_of(r[2]) in (ord('x'), ord('!'), ord('+'), ord('-')):
+                by_char = True
+            if r and is_var(r[0]) and isinstance(const_of(r[2]), int) and const_of(r[2]) in (ord('x'), ord('!')):
+                by_char = True
+        R.ob(rule, by_char, s, 'the %s mode asked for is changed only under a test of a character of the PASS prefix' % s.ev.get('bit'), key='mode-from-text:%s' % s.ev.get('bit'))
     R.floor(rule, 1)
 
 
